@@ -85,6 +85,20 @@ def oracle(ctx):
                         ctx.oracle_fail(f"count_multiple_contributions failed with id-less rows ({rU})", case, "compact"); return
                     if not (int(r0) - 1 <= int(rU) <= int(r0) + un + 1):
                         ctx.oracle_fail(f"{un} id-less rows changed the noise-free count from {r0} to {rU}", case, "idless")
+            else:
+                # several id columns: the released noise-free part is that of one of the columns, so it lies inside the union of the per-column bounds
+                base0 = [(dict(cs), 0) for cs, _ in contribs]
+                r0 = AS.py_cntm(A, ap0, case["bucket_seed"], base0)
+                if r0.startswith("ERR") or r0 == "none":
+                    ctx.oracle_fail(f"count_multiple_contributions failed on the noise-free variant with {len(contribs)} id columns ({r0})", case, "compact"); return
+                bounds = []
+                for cs, _ in base0:
+                    srt = sorted(cs.values(), reverse=True); comp = ref_compact(ol, ou, tl, tu, len(srt))
+                    if comp is not None:
+                        bounds.append((sum(min(c, srt[comp[0] + comp[1] - 1]) for c in srt), sum(min(c, srt[ol]) for c in srt)))
+                if bounds and not any(lo - 0.5000001 <= int(r0) <= hi + 0.5000001 for lo, hi in bounds):
+                    ctx.oracle_fail(f"noise-free count {r0} with {len(contribs)} id columns lies in none of the per-column bounds {bounds} "
+                                    f"(entities per column {[len(cs) for cs, _ in base0]}, intervals ({ol},{ou}) ({tl},{tu}))", case, "bounds-multi")
             # the headline clause: the `ol` heaviest entities contribute arbitrarily more rows -> released count unchanged (all rows carry ids)
             if R.random() < 0.6:
                 ap = AnonymizationParams(salt=case["salt"], outlier_count=FlatteningInterval(ol, ou), top_count=FlatteningInterval(tl, tu), layer_noise_sd=case["sd"])
